@@ -9,7 +9,8 @@ usage: sensitivity.py [ids...]      (default: all)
 import json, os, subprocess, sys, shutil, time
 VERIF = os.path.dirname(os.path.dirname(os.path.abspath(__file__)))
 SEEDED = os.path.join(VERIF, 'seeded')
-ids = sys.argv[1:] or sorted(os.listdir(SEEDED))
+ids = sys.argv[1:] or sorted(d for d in os.listdir(SEEDED)
+                             if os.path.isdir(os.path.join(SEEDED, d)))
 results = {}
 for sid in ids:
     d = os.path.join(SEEDED, sid)
@@ -48,8 +49,15 @@ for sid in ids:
         results[sid]['exit'], results[sid]['violations'],
         results[sid]['wall_s'], '; '.join(results[sid]['sigs'])))
     sys.stdout.flush()
-json.dump(results, open(os.path.join(VERIF, 'seeded', 'RESULTS.json'), 'w'),
-          indent=1, sort_keys=True)
+rp = os.path.join(VERIF, 'seeded', 'RESULTS.json')
+allres = {}
+if os.path.exists(rp):
+    try:
+        allres = json.load(open(rp))
+    except Exception:
+        allres = {}
+allres.update(results)
+json.dump(allres, open(rp, 'w'), indent=1, sort_keys=True)
 missed = [k for k, v in results.items() if not v['caught']]
 print('caught %d / %d; missed: %s' % (len(results) - len(missed),
                                         len(results), missed))
